@@ -416,6 +416,12 @@ func (h *Handler) HandleRmdir(ctx *Context, path string) error {
 		return ErrWriteForbidden
 	}
 
+	// root directory itself isn't "inside" the root: removing it changes its parent
+	if cleaned := filepath.Clean(path); cleaned == string(filepath.Separator) || cleaned == "." {
+		log.WarnContext(ctx, "Remove directory failed: root directory")
+		return fmt.Errorf("root directory can't be removed")
+	}
+
 	// Remove deletes files too, this command is for directories only
 	if stat, err := h.Fs.Stat(path); err == nil && !stat.IsDir() {
 		log.WarnContext(ctx, "Remove directory failed: not a directory")
